@@ -3,6 +3,7 @@
 -/
 import SonicModel.Lemmas.IterRefine
 import SonicModel.Impl.Err
+import SonicModel.Lemmas.IterURefine
 namespace Sonic.Thm.C12
 open Sonic Gen Impl Spec
 
@@ -26,6 +27,25 @@ theorem array_items_wf (buf : Buf) (p e : Nat) (rest : List (Nat × Nat)) (ok : 
   | err => simp [hv] at h
   | fuel => simp [hv] at h
 
+/-- **`skip_one_unchecked` on a well-formed value in its usual context** (followed by whitespace and then the end of the
+    input, `,`, `]` or `}`) ends exactly where the value ends: strings and containers by the block skippers, literals by
+    comparison, a number by `skip_number_unsafe` — the search for the next `]` `}` `,` and the step back over whitespace -/
+theorem unchecked_skip_of_wellformed_value (buf : Buf) (f i e : Nat) (hv : value false f buf (skipWs buf i) = .ok e)
+    (hfo : GetU.FollowOK buf e) : GetU.skipOneU buf i = .ok e :=
+  GetU.skipOneU_of_value buf f i e hv hfo
+
+/-- **the unchecked array iterator agrees with the checked one on well-formed input**: whenever the first value of the
+    input is a well-formed array, `to_array_iter_unchecked` yields exactly the same items — one per element, its exact
+    source span — and then ends -/
+theorem unchecked_array_iter_on_wellformed (buf : Buf) (items : List (Nat × Nat))
+    (h : arrayItems buf (skipWs buf 0) = (items, true)) : GetU.drainArrU buf 0 true = (items, true) :=
+  GetU.drainArrU_eq buf _ 0 true items rfl (by rw [drainArr_eq_spec]; exact h)
+
+/-- **the unchecked object iterator agrees with the checked one on well-formed input** -/
+theorem unchecked_object_iter_on_wellformed (buf : Buf) (items : List (List UInt8 × Nat × Nat))
+    (h : objectItems buf (skipWs buf 0) = (items, true)) : GetU.drainObjU buf 0 true = (items, true) :=
+  GetU.drainObjU_eq buf _ 0 true items rfl (by rw [drainObj_eq_spec]; exact h)
+
 /-- latch (shared with C20): once the end or an error was yielded nothing more is -/
 theorem latch (steps : List (Option Bool)) : polls true steps = steps.map (fun _ => none) := by
   induction steps with
@@ -37,6 +57,7 @@ theorem latch (steps : List (Option Bool)) : polls true steps = steps.map (fun _
 def ex1 : Buf := #[91, 49, 32, 44, 32, 34, 97, 93, 34, 32, 44, 91, 50, 93, 93, 32, 120]
 example : arrayItems ex1 0 = ([(1, 2), (5, 9), (11, 14)], true) := by decide +kernel
 example : drainArr ex1 0 true = ([(1, 2), (5, 9), (11, 14)], true) := by decide +kernel
+example : GetU.FollowOK ex1 2 := by unfold GetU.FollowOK; decide +kernel
 /-- `{"a":1,"b":[]}` -/
 def ex2 : Buf := #[123, 34, 97, 34, 58, 49, 44, 34, 92, 117, 48, 48, 54, 50, 34, 58, 91, 93, 125]
 example : objectItems ex2 0 = ([([97], 5, 6), ([98], 16, 18)], true) := by decide +kernel
